@@ -56,7 +56,7 @@ def oracle(c, r):
     if op in ("idejitter", "pdejitter"):
         refs = ref_times(c["ref"])
         if not refs:
-            if r[0] == "err" or not t["es"]:
+            if r[0] == "err":
                 return None
             return Failure(dict(sig, clause="empty-reference"), "empty reference did not raise")
         if r[0] == "err":
@@ -90,8 +90,12 @@ def oracle(c, r):
         return None
     if op == "imorph":
         u = c["other"]
-        if len(u["es"]) != len(t["es"]) or not t["es"]:
+        if len(u["es"]) != len(t["es"]):
             return None if r[0] == "err" else Failure(dict(sig, clause="count-mismatch-raises"), "mismatched counts did not raise")
+        if not t["es"]:
+            if r[0] == "ok" and r[1]["es"] == [] and (r[1]["lo"], r[1]["hi"]) == (t["lo"], t["hi"]):
+                return None
+            return Failure(dict(sig, clause="empty-morph"), f"morph of two empty tiers gave {r[:2]}")
         if r[0] == "err":
             if not r[2]:
                 return Failure(dict(sig, clause="praatio-error", exc=r[1]), f"morph raised built-in {r[1]}")
@@ -228,7 +232,7 @@ def gen_tier_level(rnd, tier):
                 u = dict(u, es=u["es"][:k])
             f = rnd.choice([None, None, ["a"], ["a", "b"], [], ["c"]])
             c = {"op": "imorph", "tier": t, "other": u, "filter": f, "grid": domain != "dec"}
-            if len(t["es"]) != len(u["es"]) or not t["es"]:
+            if len(t["es"]) != len(u["es"]):
                 c["anyerr"] = True
             yield c
 
